@@ -67,7 +67,7 @@ fn collect_placeholders(v: &Value, out: &mut Vec<String>) {
 }
 
 pub fn run(ctx: &mut Ctx, _replay: Option<&Value>) {
-    ctx.report.rule = "long histories of Issuer::encode on a fixed document with equal sibling values (34 disclosable paths incl. lists inside non-disclosable sub-containers of disclosed values, nested lists of 4 below objects and below array elements, and a disclosed member value and a disclosed array element each containing a list of 4), decoy maximum cycling through 1..50, every 8th issuance reusing the same Issuer object three times and every other 8th issuing from two clones of one prepared Issuer object: every salt decodes to >= 16 bytes; salts, disclosure digests and decoys pairwise distinct over the whole history; decoys never equal a real digest, 43 base64url characters like real digests, count in [1,max]; per digest list, the order over >= 200 issuances is not constantly the marking order; quick >= 4*10^5 decoys and >= 5*10^4 disclosures, thorough >= 6*10^6 and >= 10^6; non-trivial = every issuance (distinct by its fresh salts)".to_string();
+    ctx.report.rule = "long histories of Issuer::encode on a fixed document with equal sibling values (34 disclosable paths incl. lists inside non-disclosable sub-containers of disclosed values, nested lists of 4 below objects and below array elements, and a disclosed member value and a disclosed array element each containing a list of 4), decoy maximum cycling through 1..50, every 8th issuance reusing the same Issuer object three times and every other 8th issuing from two clones of one prepared Issuer object: every salt decodes to >= 16 bytes; salts, disclosure digests and decoys pairwise distinct over the whole history; decoys never equal a real digest, 43 base64url characters like real digests, count in [1,max]; per digest list, the order over >= 200 issuances is not constantly the marking order, and every claim of a list of four stands at every place at least once; quick >= 4*10^5 decoys and >= 5*10^4 disclosures, thorough >= 6*10^6 and >= 10^6; non-trivial = every issuance (distinct by its fresh salts)".to_string();
     let (want_decoys, want_discs) = if ctx.tier_thorough { (6_000_000usize, 1_000_000usize) } else { (400_000usize, 50_000usize) };
     let scale = ctx.cases.map(|c| c as usize);
     let enc = keys::enc_key(0, 0);
@@ -78,6 +78,8 @@ pub fn run(ctx: &mut Ctx, _replay: Option<&Value>) {
     let (mut n_decoys, mut n_discs, mut issuances) = (0usize, 0usize, 0usize);
     // per `_sd` list (keyed by its location): how often it was in marking order
     let mut order_stats: std::collections::BTreeMap<String, (usize, usize)> = Default::default();
+    // per list of exactly four real digests: how often the claim hidden r-th stood at place p (among the real ones)
+    let mut place_stats: std::collections::BTreeMap<String, [[usize; 4]; 4]> = Default::default();
     let mut i = 0usize;
     let case = json!({"kind":"history"});
     loop {
@@ -165,6 +167,15 @@ pub fn run(ctx: &mut Ctx, _replay: Option<&Value>) {
                 let e = order_stats.entry(loc.clone()).or_insert((0, 0));
                 e.0 += 1;
                 if in_order { e.1 += 1; }
+                if positions.len() == 4 {
+                    let mut sorted = positions.clone();
+                    sorted.sort();
+                    let m = place_stats.entry(loc.clone()).or_insert([[0; 4]; 4]);
+                    for (place, pos) in positions.iter().enumerate() {
+                        let rank = sorted.iter().position(|x| x == pos).unwrap();
+                        m[rank][place] += 1;
+                    }
+                }
             }
         }
     }
@@ -174,6 +185,18 @@ pub fn run(ctx: &mut Ctx, _replay: Option<&Value>) {
         if *n >= 200 && in_order == n {
             ctx.report.diff("property", "Issuer::encode", &format!("sd-order:always-marking-order:{}", loc), &case, json!({"issuances": n}));
         }
+    }
+    // an order that is independent of the marking order puts every claim at every place now and then: over 200
+    // issuances a uniformly shuffled list of four leaves a given (claim, place) pair out with probability
+    // (3/4)^200 < 10^-24 - a shuffle that can only produce some of the orders (cyclic ones, say) leaves some out always
+    for (loc, m) in &place_stats {
+        let n: usize = m[0].iter().sum();
+        if n < 200 { continue; }
+        for rank in 0..4 { for place in 0..4 {
+            if m[rank][place] == 0 {
+                ctx.report.diff("property", "Issuer::encode", &format!("sd-order:claim-never-at-place:{}", loc), &case, json!({"issuances": n, "claim_hidden_as_number": rank, "place": place, "counts": m}));
+            }
+        } }
     }
     if order_stats.len() < 7 {
         ctx.report.diff("internal", "C13", "expected-seven-digest-lists", &case, json!({"lists": order_stats.keys().collect::<Vec<_>>()}));
